@@ -226,16 +226,24 @@ def run_case(case: dict) -> dict:
                             obs["second_crash_during_recovery"] += 1
                         v = compare(spec, ref, snaps, k, run2, len(pre2), allowance=2)
                         v = [x for x in v if "INCONCLUSIVE" not in x["sig"]]
-                        v = classify(v, ref, snaps, k, spec, run2)
                         if v:
-                            # a pair may also hit the claim/plan window with its second crash
+                            # the SECOND crash may itself sit in a claim/plan window of the resumed run
                             sid2 = None
                             try:
                                 sid2 = _claim_plan_window(run, snaps2, k2)
                             except Exception:
                                 pass
-                            if sid2 is not None and not any("crash-between-stage-claim-and-plan" in x["sig"] for x in v):
-                                v = [viol("C01/crash-between-stage-claim-and-plan:predefined-tasks-run-without-ancestor-outputs", f"second crash after resumed commit {k2}; " + "; ".join(x["msg"] for x in v)[:400])] if any("upstream-data" in x["sig"] for x in v) else v
+                            sigs = " ".join(x["sig"] for x in v)
+                            if sid2 is not None and ("upstream-data" in sigs or "execution-missing" in sigs):
+                                id2ref = {vv["id"]: kk for kk, vv in run.state.get("stages", {}).items()}
+                                sdef2 = next((s_ for s_ in spec["stages"] if s_["ref"] == id2ref.get(sid2)), None)
+                                variant = "tasks-never-built-stage-completes-without-running-them" if (sdef2 or {}).get("type") == "vs" and "execution-missing" in sigs else "predefined-tasks-run-without-ancestor-outputs"
+                                if (sdef2 or {}).get("type", "v") in ("v", "vs"):
+                                    v = [viol(f"C01/crash-between-stage-claim-and-plan:{variant}", f"second crash after resumed commit {k2} (inside StartStage of {id2ref.get(sid2)}); " + "; ".join(x["msg"] for x in v)[:400])]
+                                else:
+                                    v = classify(v, ref, snaps, k, spec, run2)
+                            else:
+                                v = classify(v, ref, snaps, k, spec, run2)
                         for x in v:
                             x.update(spec=spec["name"], k=k, k2=k2)
                         violations += v
